@@ -71,7 +71,11 @@ def stateful_diff(c, ops_file, impl_file, model_file, hbin, exe):
     c.cov["failing_cases"] = failing_cases
     c.cov["failure_signatures"] = {k: len(v) for k, v in buckets.items()}
     reported = 0
-    for sig in sorted(buckets):
+    # property failures (FAIL / panic on the implementation) first: they carry the concrete failing input and must not
+    # be crowded out of the report by the correspondence mismatches that usually follow them in the same cases
+    def is_prop(sig):
+        return sig.split('/')[1].startswith('FAIL') or sig.split('/')[1] == 'panic'
+    for sig in sorted(buckets, key=lambda g: (not is_prop(g), g)):
         # shortest prefixes first: cheapest to shrink and most likely minimal
         for (_, a, first) in sorted(buckets[sig])[:MAX_PER_SIGNATURE]:
             if reported >= MAX_REPORT:
